@@ -20,3 +20,7 @@ let run id ops out =
       end) ops
   end else run_generic desc id ops out
 let registered = Registry.register "Lmbap" run
+let coq_layer (l : mbap) = Printf.sprintf "(mkMbap %s %s %s %s %s %s %s %s %s)" (coq_zlist l.mq_contents) (coq_zlist l.mq_payload) (coq_z l.mq_tid) (coq_z l.mq_pid) (coq_z l.mq_length)
+  (coq_z l.mq_unit) (coq_z l.mq_fc) (coq_bool l.mq_exc) (coq_zlist l.mq_reqresp)
+let registered_coq = Registry.register_coq "Lmbap" ("From GP Require Import Base LmbapModel.\n",
+  Lsmallutil.to_coq_generic { Lsmallutil.cd = desc; coq_layer; g_dec = "mq_decode_into"; g_fresh = "mq_fresh"; g_ser = ""; g_rp = "mq_render_panics" })
